@@ -239,6 +239,11 @@ func (its *jsonPrimitive) getTargetFromPatch(path string) (jsonType, string, err
 	if len(paths) < 1 {
 		return nil, "", errors.DatatypeInvalidPatch.New(its.common.L(), "incorrect path: %v", path)
 	}
+	// the reference tokens of a JSON pointer escape '~' as "~0" and '/' as "~1" (RFC 6901)
+	unescape := strings.NewReplacer("~1", "/", "~0", "~")
+	for i := range paths {
+		paths[i] = unescape.Replace(paths[i])
+	}
 	key := paths[len(paths)-1]
 	paths = paths[1 : len(paths)-1]
 
